@@ -18,6 +18,10 @@ CONFIGS = [
     ({"prompt_storage": "default"}, [], "default"),
     ({"prompt_storage": "default"}, [("origin", "https://example.invalid/acme/app.git")], "default"),
     ({"prompt_storage": "local"}, [], "local"),
+    # a custom API base URL switches the CAS path of the default mode on (transcripts are queued in git-ai's local
+    # database for upload and replaced by a URL in the note); the upload worker itself is off in the simulation
+    ({"prompt_storage": "default", "api_base_url": "https://cas.example.invalid"}, [], "default"),
+    ({"prompt_storage": "default", "api_base_url": "https://cas.example.invalid"}, [("origin", "https://example.invalid/acme/app.git")], "default"),
     ({"prompt_storage": "notes"}, [], "notes"),
     ({"prompt_storage": "notes"}, [("origin", "https://example.invalid/acme/app.git")], "notes"),
     ({"prompt_storage": "notes", "exclude_prompts_in_repositories": ["*acme/*"]},
@@ -101,8 +105,10 @@ class C08(C02):
             "of the documented precedence) is notes, and never an unmasked vetted token. distinct = digest of family x "
             "ops x configuration; non-trivial = a note with a prompt record was scanned")
     assumptions = ["two agent kinds: inline transcript (agent-v1) and a Claude-Code-style transcript file that git-ai "
-                   "re-fetches at commit time (claude preset, PreToolUse/PostToolUse hooks)", "the user is not logged in (no CAS upload), as in the sandbox"]
-    expected_probes = ["scan.blobs", "scan.prompt_record_seen", "mode.default", "mode.local", "mode.notes",
+                   "re-fetches at commit time (claude preset, PreToolUse/PostToolUse hooks)", "the user is not logged in; the CAS path of the default mode is reached through a custom api_base_url (two of the "
+                   "17 configurations): transcripts are queued in git-ai's own sqlite database, the upload worker is off; in those runs one commit "
+                   "runs while that database is write-locked by another process (fault db.busy: the queue insert fails)"]
+    expected_probes = ["scan.blobs", "scan.prompt_record_seen", "mode.default", "mode.local", "mode.notes", "fault.db_busy",
                        "canary.allowed_and_present", "family.amend", "family.partial", "family.fastpath", "agent.claude", "agent.inline"]
 
     def draw_hazards(self, rng, tier):
@@ -138,6 +144,7 @@ class C08(C02):
 
     def ops(self, rng, ex, cfg):
         n = 0
+        n_busy = 0
         for op in super().ops(rng, ex, cfg):
             if op["op"] == "edit" and op["who"] != "human":
                 n += 1
@@ -153,6 +160,11 @@ class C08(C02):
                 else:
                     ex.probe("agent.inline")
                 ex.gen_state.setdefault("canaries", []).append(canary)
+            if op["op"] == "git" and op["argv"][:1] == ["commit"] and bool((ex.trace.get("world", {}).get("config_extra") or {}).get("api_base_url")) and n_busy < 1 and rng.random() < 0.3:
+                # the queue insert fails for this commit (database locked by another git-ai process)
+                op["db_busy"] = True
+                n_busy += 1
+                ex.probe("fault.db_busy")
             yield op
 
     def monitor(self, ex, i, op, res, cfg):
